@@ -1884,7 +1884,7 @@ class StreamToExtendedDecorator(StreamResult):
     def status(self, test_id=None, test_status=None, *args, **kwargs):
         if test_status == "exists":
             return
-        self.hook.status(test_id=test_id, test_status=test_status, *args, **kwargs)
+        self.hook.status(test_id, test_status, *args, **kwargs)
 
     def startTestRun(self):
         self.decorated.startTestRun()
